@@ -311,3 +311,433 @@ Proof.
     destruct (accessors_vs_calendar_daily _ C) as (TA & _).
     unfold refrequent. rewrite TA, ymd_of_ord_of_ymd by assumption. cbn [bind]. exact B.
 Qed.
+
+(* ------------------------------------------------------------------ strings: helper lemmas *)
+
+Definition zp (w : nat) (n : Z) : str := pad w "0" (dec_nat n).
+
+Lemma fmt_g_zero : forall n w, 0 <= n < 1000000 -> fmt_g n w true = Some (zp w n).
+Proof.
+  intros n w H. unfold fmt_g. destruct (Z.leb_spec 0 n); [| lia]. destruct (Z.ltb_spec n 1000000); [| lia]. reflexivity.
+Qed.
+
+Lemma fmt_g_one : forall n, 0 <= n < 10 -> fmt_g n 1 false = Some [digit_char n].
+Proof.
+  intros n H. unfold fmt_g. destruct (Z.leb_spec 0 n); [| lia]. destruct (Z.ltb_spec n 1000000); [| lia].
+  rewrite dec_nat_small by lia. reflexivity.
+Qed.
+
+Lemma zp_digits : forall w n, 0 <= n -> all_digits (zp w n) = true /\ zp w n <> [] /\ parse_int (zp w n) = Some n.
+Proof.
+  intros w n H. destruct (dec_nat_digits n H) as [D N]. unfold zp.
+  split; [apply pad0_digits; assumption |]. split; [apply pad_nonempty; assumption | apply parse_int_pad0; assumption].
+Qed.
+
+Lemma zp_length : forall w n, 0 <= n < 10 ^ Z.of_nat w -> (1 <= w)%nat -> length (zp w n) = w.
+Proof.
+  intros w n H W. unfold zp. rewrite pad_length. destruct w as [| k]; [lia |].
+  pose proof (dec_nat_length n k H). lia.
+Qed.
+
+Lemma digit1 : forall n, 0 <= n <= 9 -> all_digits [digit_char n] = true /\ parse_int [digit_char n] = Some n.
+Proof.
+  intros n H. destruct (digit_char_spec n H) as [D V]. split; [cbn; rewrite D; reflexivity |].
+  rewrite parse_int_digits; [| discriminate | cbn; rewrite D; reflexivity].
+  unfold digits_value; cbn; rewrite V; try reflexivity; f_equal; lia.
+Qed.
+
+Lemma all_digits_hd : forall s c, all_digits s = true -> hd_error s = Some c -> is_digit c = true.
+Proof. intros [| x t] c D H; [discriminate |]. cbn in *. injection H as <-. apply andb_true_iff in D. apply D. Qed.
+
+Lemma all_digits_last : forall s c, all_digits s = true -> hd_error (rev s) = Some c -> is_digit c = true.
+Proof.
+  intros s c D H. assert (In c s).
+  { apply in_rev. destruct (rev s); [discriminate |]. cbn in H. injection H as <-. left. reflexivity. }
+  unfold all_digits in D. rewrite forallb_forall in D. auto.
+Qed.
+
+Lemma hd_error_app : forall (a b : str), a <> [] -> hd_error (a ++ b) = hd_error a.
+Proof. intros [| x t] b H; [congruence | reflexivity]. Qed.
+
+(* a string that starts and ends with non-blank characters is not changed by strip() *)
+Lemma strip_ends : forall a mid b, a <> [] -> b <> [] ->
+  (forall c, hd_error a = Some c -> is_space c = false) -> (forall c, hd_error (rev b) = Some c -> is_space c = false) ->
+  strip (a ++ mid ++ b) = a ++ mid ++ b.
+Proof.
+  intros a mid b Na Nb Ha Hb.
+  destruct a as [| x a']; [congruence |]. destruct (rev b) as [| z b'] eqn:E.
+  { apply (f_equal (@rev ascii)) in E. rewrite rev_involutive in E. cbn in E. congruence. }
+  apply (strip_id _ x z).
+  - discriminate.
+  - reflexivity.
+  - rewrite app_assoc, rev_app_distr, E. reflexivity.
+  - apply Ha. reflexivity.
+  - apply Hb. reflexivity.
+Qed.
+
+Lemma strip_digit_ends : forall a mid b, a <> [] -> b <> [] -> all_digits a = true -> all_digits b = true ->
+  strip (a ++ mid ++ b) = a ++ mid ++ b.
+Proof.
+  intros a mid b Na Nb Da Db. apply strip_ends; try assumption.
+  - intros c H. apply digit_not_space. apply (all_digits_hd a); assumption.
+  - intros c H. apply digit_not_space. apply (all_digits_last b); assumption.
+Qed.
+
+Lemma strip_digits : forall a, a <> [] -> all_digits a = true -> strip a = a.
+Proof.
+  intros a N D. destruct a as [| x t]; [congruence |].
+  destruct (rev (x :: t)) as [| z b'] eqn:E.
+  { apply (f_equal (@rev ascii)) in E. rewrite rev_involutive in E. discriminate. }
+  apply (strip_id _ x z).
+  - discriminate.
+  - reflexivity.
+  - rewrite E. reflexivity.
+  - apply digit_not_space. apply (all_digits_hd (x :: t)); [assumption | reflexivity].
+  - apply digit_not_space. apply (all_digits_last (x :: t)); [assumption | rewrite E; reflexivity].
+Qed.
+
+Lemma removesuffix_last : forall c x, removesuffix [c] (x ++ [c]) = x.
+Proof.
+  intros c x. unfold removesuffix. rewrite rev_app_distr. cbn [rev app is_prefix]. rewrite Ascii.eqb_refl. cbn [andb].
+  rewrite app_length. cbn [length]. replace (length x + 1 - 1)%nat with (length x) by lia.
+  rewrite firstn_app, Nat.sub_diag, firstn_all. cbn. apply app_nil_r.
+Qed.
+
+Lemma dash_not_digit : is_digit "-" = false.
+Proof. reflexivity. Qed.
+
+(* "dddd-dd-dd" and friends split into their digit groups *)
+Lemma split3 : forall a b c, all_digits a = true -> all_digits b = true -> all_digits c = true ->
+  split_on (s2l "-") (a ++ s2l "-" ++ b ++ s2l "-" ++ c) = [a; b; c].
+Proof.
+  intros a b c Da Db Dc. change (s2l "-") with ("-"%char :: []).
+  rewrite split_on_digits_sep by (assumption || reflexivity).
+  rewrite split_on_digits_sep by (assumption || reflexivity).
+  rewrite split_on_digits_end by (assumption || reflexivity). reflexivity.
+Qed.
+
+Lemma split2 : forall sep a b, all_digits a = true -> all_digits b = true ->
+  split_on ("-"%char :: sep) (a ++ ("-"%char :: sep) ++ b) = [a; b].
+Proof.
+  intros sep a b Da Db. rewrite split_on_digits_sep by (assumption || reflexivity).
+  rewrite split_on_digits_end by (assumption || reflexivity). reflexivity.
+Qed.
+
+(* ------------------------------------------------------------------ ISO strings *)
+
+Lemma to_iso_string_form : forall y m d, 0 <= y < 1000000 -> 0 <= m < 1000000 -> 0 <= d < 1000000 ->
+  render (gen_to_iso y m d) = Some (zp 4 y ++ s2l "-" ++ zp 2 m ++ s2l "-" ++ zp 2 d).
+Proof.
+  intros y m d Y M D. unfold gen_to_iso. cbn [render render_piece].
+  rewrite !fmt_g_zero by assumption. cbn [s2l list_ascii_of_string app]. rewrite app_nil_r. reflexivity.
+Qed.
+
+Lemma from_iso_of_form : forall f y m d, 0 <= y -> 0 <= m -> 0 <= d ->
+  from_iso f (zp 4 y ++ s2l "-" ++ zp 2 m ++ s2l "-" ++ zp 2 d) = from_ymd f y m d.
+Proof.
+  intros f y m d Y M D. unfold from_iso.
+  destruct (zp_digits 4 y Y) as (D1 & _ & P1). destruct (zp_digits 2 m M) as (D2 & _ & P2).
+  destruct (zp_digits 2 d D) as (D3 & _ & P3).
+  change (s2l gen_iso_sep) with (s2l "-"). rewrite split3 by assumption. rewrite P1, P2, P3. reflexivity.
+Qed.
+
+(* to_iso_string at any position, then from_iso_string with the same frequency *)
+Theorem iso_roundtrip : forall p pos, in_domain p ->
+  exists x, to_iso pos p = Ok x /\ from_iso (p_freq p) x = Ok p.
+Proof.
+  intros p pos D. destruct (domain_date p pos D) as (y & m & d & A & V & Y & B).
+  destruct V as (V1 & V2 & V3). pose proof (dim_range y m). unfold MAXYEAR in Y.
+  eexists. unfold to_iso. rewrite A. cbn [bind]. rewrite to_iso_string_form by lia. cbn [of_opt].
+  split; [reflexivity |]. rewrite from_iso_of_form by lia. exact B.
+Qed.
+
+(* ------------------------------------------------------------------ SDMX strings: encode, decode *)
+
+Ltac freq_tests :=
+  repeat match goal with
+         | |- context [Z.eqb ?a ?b] =>
+             let v := eval vm_compute in (Z.eqb a b) in
+             match v with true => idtac | false => idtac end; change (Z.eqb a b) with v
+         end; cbv iota.
+
+Lemma all_some_map_some : forall (T : Type) (l : list T), all_some (map Some l) = Some l.
+Proof. induction l; cbn; [reflexivity | rewrite IHl; reflexivity]. Qed.
+
+Lemma removeprefix_nil : forall s, removeprefix [] s = s.
+Proof. reflexivity. Qed.
+
+Lemma removesuffix_nil : forall s, removesuffix [] s = s.
+Proof. reflexivity. Qed.
+
+Lemma parse_with_simple : forall ps s pieces ints,
+  (if sp_strip ps then strip s else s) = s ->
+  sp_prefix ps = ""%string -> sp_suffix ps = ""%string ->
+  match sp_sep ps with None => [s] | Some sep => split_on (s2l sep) s end = pieces ->
+  length pieces = sp_npieces ps ->
+  map parse_int pieces = map Some ints ->
+  parse_with ps s = sp_build ps ints.
+Proof.
+  intros ps s pieces ints St Pf Sf Sp Ln Pi. unfold parse_with. rewrite St, Pf, Sf.
+  change (s2l "") with (@nil ascii). rewrite removeprefix_nil, removesuffix_nil, Sp, Ln, Nat.eqb_refl. cbn [orb].
+  rewrite <- Ln, firstn_all, Pi, all_some_map_some. reflexivity.
+Qed.
+
+(* text of to_sdmx_string for each class *)
+Lemma sdmx_text_Y : forall s, 0 <= s < 1000000 -> to_sdmx (mkP freq_YEARLY s) = Ok (zp 4 s).
+Proof.
+  intros s H. unfold to_sdmx, sdmx_pieces. cbn [p_freq p_serial]. freq_tests. unfold gen_to_sdmx_YEARLY.
+  cbn [of_opt bind render render_piece]. change freq_YEARLY with 1. rewrite Z.div_1_r, fmt_g_zero by assumption.
+  cbn [of_opt]. rewrite app_nil_r. reflexivity.
+Qed.
+
+Lemma sdmx_text_HQ : forall f (L : string) s, (f = freq_HALFYEARLY /\ L = "H"%string) \/ (f = freq_QUARTERLY /\ L = "Q"%string) ->
+  0 <= s / f < 1000000 ->
+  to_sdmx (mkP f s) = Ok (zp 4 (s / f) ++ ("-"%char :: s2l L) ++ [digit_char (s mod f + 1)]).
+Proof.
+  intros f L s [[-> ->] | [-> ->]] H.
+  - assert (M : 0 <= s mod freq_HALFYEARLY + 1 < 10)
+      by (pose proof (Z.mod_pos_bound s freq_HALFYEARLY eq_refl); unfold freq_HALFYEARLY in *; lia).
+    unfold to_sdmx, sdmx_pieces; cbn [p_freq p_serial]; freq_tests.
+    unfold gen_to_sdmx_HALFYEARLY; cbn [of_opt bind render render_piece].
+    rewrite fmt_g_zero, fmt_g_one by assumption; cbn [of_opt s2l list_ascii_of_string app]; reflexivity.
+  - assert (M : 0 <= s mod freq_QUARTERLY + 1 < 10)
+      by (pose proof (Z.mod_pos_bound s freq_QUARTERLY eq_refl); unfold freq_QUARTERLY in *; lia).
+    unfold to_sdmx, sdmx_pieces; cbn [p_freq p_serial]; freq_tests.
+    unfold gen_to_sdmx_QUARTERLY; cbn [of_opt bind render render_piece].
+    rewrite fmt_g_zero, fmt_g_one by assumption; cbn [of_opt s2l list_ascii_of_string app]; reflexivity.
+Qed.
+
+Lemma sdmx_text_M : forall s, 0 <= s / freq_MONTHLY < 1000000 ->
+  to_sdmx (mkP freq_MONTHLY s) = Ok (zp 4 (s / freq_MONTHLY) ++ s2l "-" ++ zp 2 (s mod freq_MONTHLY + 1)).
+Proof.
+  intros s H.
+  assert (M : 0 <= s mod freq_MONTHLY + 1 < 1000000)
+    by (pose proof (Z.mod_pos_bound s freq_MONTHLY eq_refl); unfold freq_MONTHLY in *; lia).
+  unfold to_sdmx, sdmx_pieces. cbn [p_freq p_serial]. freq_tests. unfold gen_to_sdmx_MONTHLY.
+  cbn [of_opt bind render render_piece]. rewrite !fmt_g_zero by assumption.
+  cbn [of_opt s2l list_ascii_of_string app]. rewrite app_nil_r. reflexivity.
+Qed.
+
+Lemma sdmx_text_D : forall n, in_calendar n ->
+  to_sdmx (mkP freq_DAILY n) = Ok (zp 4 (year_of_ord n) ++ s2l "-" ++ zp 2 (month_of_ord n) ++ s2l "-" ++ zp 2 (day_of_ord n)).
+Proof.
+  intros n C. pose proof (ord_ok_true n C) as O.
+  pose proof (year_in_range n C) as Y. unfold MINYEAR, MAXYEAR in Y.
+  pose proof (ord_of_ymd_of_ord n) as W. rewrite <- ymd_of_ord_eta in W. destruct W as (_ & Wm & Wd & _).
+  pose proof (dim_range (year_of_ord n) (month_of_ord n)).
+  unfold to_sdmx, sdmx_pieces. cbn [p_freq p_serial]. freq_tests. unfold gen_to_sdmx_DAILY. rewrite O.
+  cbn [of_opt bind render render_piece]. rewrite !fmt_g_zero by lia.
+  cbn [of_opt s2l list_ascii_of_string app]. rewrite app_nil_r. reflexivity.
+Qed.
+
+Lemma sdmx_text_I : forall n, to_sdmx (mkP freq_INTEGER n) = Ok ("("%char :: dec_int n ++ [")"%char]).
+Proof.
+  intros n. unfold to_sdmx, sdmx_pieces. cbn [p_freq p_serial]. freq_tests. unfold gen_to_sdmx_INTEGER.
+  cbn [of_opt bind render render_piece s2l list_ascii_of_string app]. rewrite ?app_nil_r. reflexivity.
+Qed.
+
+(* decoding with the frequency given *)
+Lemma from_sdmx_Y : forall s, 0 <= s -> from_sdmx_as freq_YEARLY (zp 4 s) = Ok (mkP freq_YEARLY s).
+Proof.
+  intros s H. destruct (zp_digits 4 s H) as (D & N & P).
+  unfold from_sdmx_as, parser_of. freq_tests.
+  rewrite (parse_with_simple gen_from_sdmx_YEARLY (zp 4 s) [zp 4 s] [s]); try reflexivity.
+  - cbn [sp_strip gen_from_sdmx_YEARLY]. apply strip_digits; assumption.
+  - cbn [map]. rewrite P. reflexivity.
+Qed.
+
+Lemma from_sdmx_HQ : forall f (L : string) y seg, (f = freq_HALFYEARLY /\ L = "H"%string) \/ (f = freq_QUARTERLY /\ L = "Q"%string) ->
+  0 <= y -> 0 <= seg <= 9 ->
+  from_sdmx_as f (zp 4 y ++ ("-"%char :: s2l L) ++ [digit_char seg]) = Ok (mkP f (y * f + seg - 1)).
+Proof.
+  intros f L y seg FL Y S. destruct (zp_digits 4 y Y) as (D & N & P). destruct (digit1 seg S) as (D1 & P1).
+  unfold from_sdmx_as, parser_of.
+  destruct FL as [[-> ->] | [-> ->]]; freq_tests;
+    [rewrite (parse_with_simple gen_from_sdmx_HALFYEARLY _ [zp 4 y; [digit_char seg]] [y; seg])
+    |rewrite (parse_with_simple gen_from_sdmx_QUARTERLY _ [zp 4 y; [digit_char seg]] [y; seg])]; try reflexivity;
+    try (cbn [sp_strip gen_from_sdmx_HALFYEARLY gen_from_sdmx_QUARTERLY]; apply strip_digit_ends; (assumption || discriminate));
+    try (cbn [sp_sep gen_from_sdmx_HALFYEARLY gen_from_sdmx_QUARTERLY s2l list_ascii_of_string]; apply split2; assumption);
+    try (cbn [map]; rewrite P, P1; reflexivity).
+Qed.
+
+Lemma from_sdmx_M : forall y seg, 0 <= y -> 0 <= seg ->
+  from_sdmx_as freq_MONTHLY (zp 4 y ++ s2l "-" ++ zp 2 seg) = Ok (mkP freq_MONTHLY (y * freq_MONTHLY + seg - 1)).
+Proof.
+  intros y seg Y S. destruct (zp_digits 4 y Y) as (D & N & P). destruct (zp_digits 2 seg S) as (D1 & N1 & P1).
+  unfold from_sdmx_as, parser_of. freq_tests.
+  rewrite (parse_with_simple gen_from_sdmx_MONTHLY _ [zp 4 y; zp 2 seg] [y; seg]); try reflexivity.
+  - cbn [sp_strip gen_from_sdmx_MONTHLY]. apply strip_digit_ends; assumption.
+  - cbn [sp_sep gen_from_sdmx_MONTHLY s2l list_ascii_of_string]. apply (split2 []); assumption.
+  - cbn [map]. rewrite P, P1. reflexivity.
+Qed.
+
+Lemma from_sdmx_D : forall y m d, valid_ymd y m d -> y <= MAXYEAR ->
+  from_sdmx_as freq_DAILY (zp 4 y ++ s2l "-" ++ zp 2 m ++ s2l "-" ++ zp 2 d) = Ok (mkP freq_DAILY (ord_of_ymd y m d)).
+Proof.
+  intros y m d V Y. pose proof V as (V1 & V2 & V3).
+  destruct (zp_digits 4 y ltac:(lia)) as (D1 & _ & P1). destruct (zp_digits 2 m ltac:(lia)) as (D2 & _ & P2).
+  destruct (zp_digits 2 d ltac:(lia)) as (D3 & _ & P3).
+  unfold from_sdmx_as, parser_of. freq_tests.
+  rewrite (parse_with_simple gen_from_sdmx_DAILY _ [zp 4 y; zp 2 m; zp 2 d] [y; m; d]); try reflexivity.
+  - cbn [sp_build gen_from_sdmx_DAILY nth]. rewrite (proj2 (date_ok_spec y m d) (conj V Y)). reflexivity.
+  - cbn [sp_sep gen_from_sdmx_DAILY]. apply split3; assumption.
+  - cbn [map]. rewrite P1, P2, P3. reflexivity.
+Qed.
+
+Lemma from_sdmx_I : forall n, from_sdmx_as freq_INTEGER ("("%char :: dec_int n ++ [")"%char]) = Ok (mkP freq_INTEGER n).
+Proof.
+  intros n. unfold from_sdmx_as, parser_of. freq_tests. unfold parse_with.
+  cbn [sp_strip sp_prefix sp_suffix sp_sep sp_npieces sp_star sp_build gen_from_sdmx_INTEGER s2l list_ascii_of_string].
+  assert (ST : strip ("("%char :: dec_int n ++ [")"%char]) = "("%char :: dec_int n ++ [")"%char]).
+  { apply (strip_ends ["("%char] (dec_int n) [")"%char]); try discriminate;
+      intros c H; cbn in H; injection H as <-; reflexivity. }
+  rewrite ST. unfold removeprefix. cbn [is_prefix Ascii.eqb Bool.eqb andb length skipn].
+  rewrite removesuffix_last. cbn [length Nat.eqb orb firstn map]. rewrite parse_int_dec_int. reflexivity.
+Qed.
+
+(* ------------------------------------------------------------------ SDMX: round trip and auto-detection *)
+
+Lemma zp4_explicit : forall n, 0 <= n <= 9999 -> exists c1 c2 c3 c4,
+  zp 4 n = [c1; c2; c3; c4] /\ is_digit c1 = true /\ is_digit c2 = true /\ is_digit c3 = true /\ is_digit c4 = true.
+Proof.
+  intros n H. destruct (zp_digits 4 n ltac:(lia)) as (D & _ & _).
+  pose proof (zp_length 4 n ltac:(change (10 ^ Z.of_nat 4) with 10000; lia) ltac:(lia)) as L.
+  destruct (zp 4 n) as [| c1 [| c2 [| c3 [| c4 [| c5 t]]]]]; try discriminate.
+  exists c1, c2, c3, c4. cbn in D. rewrite !andb_true_iff in D. intuition.
+Qed.
+
+Lemma zp2_explicit : forall n, 0 <= n <= 99 -> exists c1 c2,
+  zp 2 n = [c1; c2] /\ is_digit c1 = true /\ is_digit c2 = true.
+Proof.
+  intros n H. destruct (zp_digits 2 n ltac:(lia)) as (D & _ & _).
+  pose proof (zp_length 2 n ltac:(change (10 ^ Z.of_nat 2) with 100; lia) ltac:(lia)) as L.
+  destruct (zp 2 n) as [| c1 [| c2 [| c3 t]]]; try discriminate.
+  exists c1, c2. cbn in D. rewrite !andb_true_iff in D. intuition.
+Qed.
+
+Lemma digit_neq : forall c x, is_digit c = true -> is_digit x = false -> Ascii.eqb c x = false /\ Ascii.eqb x c = false.
+Proof.
+  intros c x Dc Dx. split; [destruct (Ascii.eqb_spec c x) | destruct (Ascii.eqb_spec x c)]; try reflexivity; subst; congruence.
+Qed.
+
+Ltac use_atoms := repeat (erewrite atoms_of_sound by reflexivity).
+
+Ltac detect_compute :=
+  unfold detect_in, gen_sdmx_formats; use_atoms;
+  cbn [app length Nat.eqb atoms_match atom_match andb orb];
+  repeat match goal with H : is_digit _ = true |- _ => rewrite H end;
+  repeat match goal with
+         | H : is_digit ?c = true |- context [Ascii.eqb ?c ?x] => rewrite (proj1 (digit_neq c x H eq_refl))
+         | H : is_digit ?c = true |- context [Ascii.eqb ?x ?c] => rewrite (proj2 (digit_neq c x H eq_refl))
+         end;
+  cbn [app length Nat.eqb atoms_match atom_match andb orb Ascii.eqb Bool.eqb existsb].
+
+Lemma detect_Y : forall s, 1 <= s <= 9999 -> detect (zp 4 s) = Some freq_YEARLY.
+Proof.
+  intros s H. destruct (zp_digits 4 s ltac:(lia)) as (D & N & _).
+  unfold detect. rewrite strip_digits by assumption.
+  destruct (zp4_explicit s ltac:(lia)) as (c1 & c2 & c3 & c4 & -> & D1 & D2 & D3 & D4).
+  detect_compute. reflexivity.
+Qed.
+
+Lemma detect_HQ : forall f (L : ascii) y seg, (f = freq_HALFYEARLY /\ L = "H"%char) \/ (f = freq_QUARTERLY /\ L = "Q"%char) ->
+  0 <= y <= 9999 -> 0 <= seg <= 9 ->
+  detect (zp 4 y ++ ["-"%char; L] ++ [digit_char seg]) = Some f.
+Proof.
+  intros f L y seg FL Y S. destruct (zp_digits 4 y ltac:(lia)) as (D & N & _). destruct (digit1 seg S) as (Dg & _).
+  unfold detect. rewrite strip_digit_ends by (assumption || discriminate).
+  destruct (zp4_explicit y Y) as (c1 & c2 & c3 & c4 & -> & D1 & D2 & D3 & D4).
+  assert (D5 : is_digit (digit_char seg) = true) by (apply (digit_char_spec seg S)).
+  destruct FL as [[-> ->] | [-> ->]]; cbn [app]; detect_compute; reflexivity.
+Qed.
+
+Lemma detect_M : forall y seg, 0 <= y <= 9999 -> 0 <= seg <= 99 ->
+  detect (zp 4 y ++ s2l "-" ++ zp 2 seg) = Some freq_MONTHLY.
+Proof.
+  intros y seg Y S. destruct (zp_digits 4 y ltac:(lia)) as (D & N & _). destruct (zp_digits 2 seg ltac:(lia)) as (D' & N' & _).
+  unfold detect. rewrite strip_digit_ends by assumption.
+  destruct (zp4_explicit y Y) as (c1 & c2 & c3 & c4 & -> & D1 & D2 & D3 & D4).
+  destruct (zp2_explicit seg S) as (c5 & c6 & -> & D5 & D6).
+  cbn [app s2l list_ascii_of_string]. detect_compute. reflexivity.
+Qed.
+
+Lemma detect_D : forall y m d, 0 <= y <= 9999 -> 0 <= m <= 99 -> 0 <= d <= 99 ->
+  detect (zp 4 y ++ s2l "-" ++ zp 2 m ++ s2l "-" ++ zp 2 d) = Some freq_DAILY.
+Proof.
+  intros y m d Y M Dd. destruct (zp_digits 4 y ltac:(lia)) as (D & N & _). destruct (zp_digits 2 d ltac:(lia)) as (D' & N' & _).
+  unfold detect.
+  replace (zp 4 y ++ s2l "-" ++ zp 2 m ++ s2l "-" ++ zp 2 d) with (zp 4 y ++ (s2l "-" ++ zp 2 m ++ s2l "-") ++ zp 2 d)
+    by (rewrite <- !app_assoc; reflexivity).
+  rewrite strip_digit_ends by assumption.
+  destruct (zp4_explicit y Y) as (c1 & c2 & c3 & c4 & -> & D1 & D2 & D3 & D4).
+  destruct (zp2_explicit m M) as (c5 & c6 & -> & D5 & D6). destruct (zp2_explicit d Dd) as (c7 & c8 & -> & D7 & D8).
+  cbn [app s2l list_ascii_of_string]. detect_compute. reflexivity.
+Qed.
+
+(* the integer pattern: "(" then an optional sign then digits then ")" *)
+Lemma matches_int_text : forall n,
+  Matches (seq_of [Chr "("; Opt (Cls ["-"; "+"]%char); Plus Digit; Chr ")"]%char) ("("%char :: dec_int n ++ [")"%char]).
+Proof.
+  intros n. cbn [seq_of]. apply (MSeq _ _ ["("%char]); [constructor |].
+  unfold dec_int. destruct (Z.ltb_spec n 0).
+  - destruct (dec_nat_digits (- n) ltac:(lia)) as (D & N).
+    apply (MSeq _ _ ["-"%char] (dec_nat (- n) ++ [")"%char])).
+    + apply MOptSome. constructor. left. reflexivity.
+    + apply MSeq; [apply matches_plus_digits; assumption |].
+      rewrite <- (app_nil_r [")"%char]). apply MSeq; constructor.
+  - destruct (dec_nat_digits n ltac:(lia)) as (D & N).
+    apply (MSeq _ _ [] (dec_nat n ++ [")"%char])); [apply MOptNone |].
+    apply MSeq; [apply matches_plus_digits; assumption |].
+    rewrite <- (app_nil_r [")"%char]). apply MSeq; constructor.
+Qed.
+
+Lemma detect_I : forall n, detect ("("%char :: dec_int n ++ [")"%char]) = Some freq_INTEGER.
+Proof.
+  intros n. unfold detect.
+  assert (ST : strip ("("%char :: dec_int n ++ [")"%char]) = "("%char :: dec_int n ++ [")"%char]).
+  { apply (strip_ends ["("%char] (dec_int n) [")"%char]); try discriminate;
+      intros c H; cbn in H; injection H as <-; reflexivity. }
+  rewrite ST. unfold detect_in, gen_sdmx_formats. use_atoms.
+  cbn [app atoms_match atom_match andb]. change (is_digit "(") with false. cbn [andb]. rewrite !andb_false_r.
+  rewrite (proj2 (fullmatch_spec _ _) (matches_int_text n)). reflexivity.
+Qed.
+
+(* for every period of every class: the text produced by to_sdmx_string is decoded to the same period, both with the
+   frequency given and with the frequency auto-detected from the text *)
+Definition sdmx_domain (p : period) : Prop :=
+  in_domain p \/ p_freq p = freq_INTEGER.
+
+Theorem sdmx_roundtrip_autodetect : forall p, sdmx_domain p ->
+  exists x, to_sdmx p = Ok x /\ from_sdmx_as (p_freq p) x = Ok p /\ detect x = Some (p_freq p) /\ from_sdmx x = Ok p.
+Proof.
+  intros [f s] D.
+  assert (G : forall x, to_sdmx (mkP f s) = Ok x -> from_sdmx_as f x = Ok (mkP f s) -> detect x = Some f ->
+              exists x0, to_sdmx (mkP f s) = Ok x0 /\ from_sdmx_as f x0 = Ok (mkP f s) /\ detect x0 = Some f /\
+                         from_sdmx x0 = Ok (mkP f s)).
+  { intros x A B C. exists x. unfold from_sdmx. rewrite C. auto. }
+  destruct D as [[[R Y] | [E C]] | E]; cbn [p_freq p_serial] in *.
+  - pose proof (regular_pos f R) as F. pose proof (Z.mod_pos_bound s f F) as MB. unfold MAXYEAR in Y.
+    pose proof (Z.div_mod s f ltac:(lia)) as DM.
+    destruct (regular_cases f R) as [-> | [-> | [-> | ->]]].
+    + rewrite Z.div_1_r in Y. apply (G (zp 4 s)); [apply sdmx_text_Y; lia | apply from_sdmx_Y; lia | apply detect_Y; lia].
+    + apply (G (zp 4 (s / 2) ++ ("-"%char :: s2l "H") ++ [digit_char (s mod 2 + 1)])).
+      * apply (sdmx_text_HQ 2 "H"); [left; auto | lia].
+      * rewrite (from_sdmx_HQ 2 "H") by (try (left; split; reflexivity); lia). f_equal. f_equal. lia.
+      * apply (detect_HQ 2 "H"); [left; auto | lia | lia].
+    + apply (G (zp 4 (s / 4) ++ ("-"%char :: s2l "Q") ++ [digit_char (s mod 4 + 1)])).
+      * apply (sdmx_text_HQ 4 "Q"); [right; auto | lia].
+      * rewrite (from_sdmx_HQ 4 "Q") by (try (right; split; reflexivity); lia). f_equal. f_equal. lia.
+      * apply (detect_HQ 4 "Q"); [right; auto | lia | lia].
+    + apply (G (zp 4 (s / 12) ++ s2l "-" ++ zp 2 (s mod 12 + 1))).
+      * apply sdmx_text_M. change freq_MONTHLY with 12. lia.
+      * change 12 with freq_MONTHLY at 4. rewrite from_sdmx_M by lia. f_equal. f_equal. change freq_MONTHLY with 12. lia.
+      * apply detect_M; lia.
+  - subst f.
+    pose proof (year_in_range s C) as Y. unfold MINYEAR, MAXYEAR in Y.
+    pose proof (ord_of_ymd_of_ord s) as W. rewrite <- ymd_of_ord_eta in W. destruct W as (W1 & Wm & Wd & _).
+    pose proof (dim_range (year_of_ord s) (month_of_ord s)).
+    apply (G _ (sdmx_text_D s C)).
+    + rewrite from_sdmx_D; [rewrite W1; reflexivity | unfold valid_ymd; lia | unfold MAXYEAR; lia].
+    + apply detect_D; lia.
+  - subst f. apply (G _ (sdmx_text_I s)); [apply from_sdmx_I | apply detect_I].
+Qed.
